@@ -236,6 +236,35 @@ def run(chk):
                "text, extra newlines) and hand-written malformed sources: reported line/column is a position of the source",
                len(bcases), len(set(bad_srcs)), exhaustive=False, note="%d of them are syntax errors" % nerr)
     chk.sample(dict(source=bad_srcs[3][:200], impl=bimpl[3]))
+    # errors inside f-string segments (parsed by a nested tokenizer): reported where the literal starts
+    fsrcs, fwant = [], []
+    for pre in ["", " ", "\n", "\n\n  ", "1 +\n", "[\n 1,\n\t", "'é€' +\n ", "x1 ?\n\n", "(\n"]:
+        for seg in ["{a +}", "{(}", "{'x}", "{a.}", "a{b}c{1 +}", "é{[1,}€", "{x}{y}{)}", "{\n\n1 +}", "{ 1 +\n}", "{0x}", "{'\\u12'}",
+                    "{f'{1 +}'}", "{a ? b}", "{match a }", "{[1, 2}"]:
+            for q in ["'", '"']:
+                if q in seg:
+                    continue
+                src = pre + "f" + q + seg + q
+                fsrcs.append(src)
+                fwant.append((pre.count("\n"), len(pre.split("\n")[-1])))
+    fcases = ["parse " + vs(x) for x in fsrcs]
+    fimpl, fmodel = tie(chk, "errors inside f-string segments", fcases, labels=fsrcs)
+    for src, c, r, w in zip(fsrcs, fcases, fimpl, fwant):
+        if is_dead(r):
+            continue
+        if not r.startswith("ERR Esyn:"):
+            chk.violation("a malformed f-string segment is accepted", dict(case=c, source=src, impl=r))
+            continue
+        l, col = map(int, r.split()[1].split(":")[1:3])
+        lines = src.split("\n")
+        if not (0 <= l < len(lines) and 0 <= col <= len(lines[l])):
+            chk.violation("a syntax error reports a position that is not in the source",
+                          dict(case=c, source=src, impl=r, lines=len(lines), line_lengths=[len(x) for x in lines][:20]))
+        elif (l, col) != w:
+            chk.violation("a syntax error inside an f-string segment is not reported at the literal",
+                          dict(case=c, source=src, impl=r, lines=len(lines), expected_position="%d:%d" % w))
+    chk.stream("malformed f-string segments after prefixes with newlines, tabs and multi-byte text: the error is reported at the "
+               "start of the literal", len(fcases), len(set(fsrcs)), exhaustive=True)
     chk.cov["rule"] = ("every node of every tree is validated; columns count characters (not bytes); pattern nodes of match are "
                        "excluded as the property says")
 
@@ -261,6 +290,8 @@ def replay(chk, rep):
         l, col = map(int, r.split()[1].split(":")[1:3])
         lines = rep["source"].split("\n")
         if not (0 <= l < len(lines) and 0 <= col <= len(lines[l])):
+            chk.violation(rep.get("what", "replayed"), rep)
+        elif "expected_position" in rep and "%d:%d" % (l, col) != rep["expected_position"]:
             chk.violation(rep.get("what", "replayed"), rep)
     elif is_dead(r):
         chk.violation(rep.get("what", "replayed"), rep)
